@@ -91,6 +91,11 @@ Fixpoint vdict_set (k x : value) (l : list (value * value)) : list (value * valu
   | [] => [(k, x)]
   | (j, w) :: r => if py_key_eqb k j then (j, x) :: r else (j, w) :: vdict_set k x r
   end.
+(* dict(items): y[k] = x per pair, in order; None = TypeError (a key that cannot be hashed) *)
+Definition vdict_build (items : list (value * value)) : option (list (value * value)) :=
+  if forallb (fun kv => py_hashable (fst kv)) items
+  then Some (fold_left (fun y kv => vdict_set (fst kv) (snd kv) y) items [])
+  else None.
 
 (* ---- insertion-ordered association lists (Python dict) ---- *)
 Section AL.
